@@ -35,9 +35,10 @@ import Driver.HD06
 import Driver.HD16
 import Driver.HD17
 import Driver.HD11b
+import Driver.HD20b
 open CtyModel
 
-def handlers : List Handler := [handleTy, handleVal, handleNum, handleOps, handleFunc, handleSet, handleSetRules, handleRefine, handleGocty, handleStd, handleStdNum, handleMarks, handleMsgpack, handleJsonVal, handleStdlib, handleWF, handleHeap, handleCovers, handleC12, handleConvert, handleWalk, handleUnify, handleD13, handleD02, handleD03, handleD03b, handleD01, handleD11, handleD06, handleD16, handleD17, handleD11b]
+def handlers : List Handler := [handleTy, handleVal, handleNum, handleOps, handleFunc, handleSet, handleSetRules, handleRefine, handleGocty, handleStd, handleStdNum, handleMarks, handleMsgpack, handleJsonVal, handleStdlib, handleWF, handleHeap, handleCovers, handleC12, handleConvert, handleWalk, handleUnify, handleD13, handleD02, handleD03, handleD03b, handleD01, handleD11, handleD06, handleD16, handleD17, handleD11b, handleD20b]
 
 def handle (op : String) (args : List Sexp) : String :=
   match handlers.findSome? (fun h => h op args) with
